@@ -63,6 +63,48 @@ Theorem C02_chain_order : forall dl st cf,
 Proof. exact chain_order_lemma. Qed.
 Print Assumptions C02_chain_order.
 
+(* Hooks are functions of (status, headers) that leave the body alone.  The chain as the code
+   builds it, seen as a function of the WHOLE response (status, header map, body reader): for
+   every list of the code's hooks, every discard list, every response - whatever its Server and
+   other headers, whatever its body, whatever the type of the reader state - the verdict is the
+   one computed from the status code and Header.Get("cf-mitigated") alone, and the body reader is
+   handed on exactly as received. *)
+Theorem C02_hooks_pure : forall (B : Type) hooks dl (r : resp B),
+  gchain (map (hook_fn dl) hooks) r =
+  (chain hooks dl (rs_status r) (header_get cf_key (rs_header r)), rs_body r).
+Proof. exact @hooks_pure_lemma. Qed.
+Print Assumptions C02_hooks_pure.
+
+(* Builder.Build() over ANY list of hooks (future discarders included): if every hook hands the
+   body on untouched and decides independently of it, so does the chain *)
+Theorem C02_chain_pure : forall (B : Type) (hs : list (ghook B)),
+  Forall pure_hook hs -> pure_hook (gchain hs).
+Proof. exact @chain_pure_lemma. Qed.
+Print Assumptions C02_chain_pure.
+
+(* "response or identical-payload revisit": what the recorder digests after asking the chain
+   (WARC-Payload-Digest, the key of local dedupe) is the payload itself exactly when the policy
+   keeps the exchange; so two kept exchanges that reach the digest with the same bytes have
+   identical payloads *)
+Theorem C02_revisit_identical : forall (B : Type) hooks dl (r1 r2 : resp B) p,
+  recorder_payload (Some (gchain (map (hook_fn dl) hooks))) r1 = Some p ->
+  recorder_payload (Some (gchain (map (hook_fn dl) hooks))) r2 = Some p ->
+  rs_body r1 = p /\ rs_body r2 = p.
+Proof. exact @revisit_identical_lemma. Qed.
+Print Assumptions C02_revisit_identical.
+
+(* ... and why the body must be left alone: one hook that keeps the response but consumes the
+   head of the body makes two different payloads with a common tail indistinguishable to the
+   recorder, and neither digest is the payload's *)
+Theorem C02_impure_hook_refuted :
+  exists (r1 r2 : resp bytes) dl,
+    rs_body r1 <> rs_body r2 /\
+    let hook := Some (gchain (peeking_hook 4 :: map (hook_fn dl) default_hooks)) in
+    recorder_payload hook r1 = recorder_payload hook r2 /\
+    recorder_payload hook r1 <> Some (rs_body r1).
+Proof. exact impure_hook_refuted. Qed.
+Print Assumptions C02_impure_hook_refuted.
+
 (* archive(): at most MaxRetry + 1 requests per item, for every outcome sequence *)
 Theorem C02_attempts_le : forall cfg pb os,
   (count_req (fst (archive_item cfg pb os)) <= a_max_retry cfg + 1)%N.
